@@ -112,7 +112,7 @@ struct Built {
     result: Result<String, String>,
 }
 
-fn build(shape_ops: &[(u8, String, String)]) -> Built {
+fn build(shape_ops: &[(u8, String, String)], variant: u64) -> Built {
     // ops: (0 literal, text, _) | (1 path param, value, _) | (2 query, key, value)
     let mut shape = Shape { segs: vec![], query: vec![] };
     let mut names = vec![];
@@ -131,14 +131,43 @@ fn build(shape_ops: &[(u8, String, String)]) -> Built {
         }
     }
     let ops = shape_ops.to_vec();
+    let variant = variant;
     let result = guarded(move || {
         let mut b = UriBuilder::new();
-        for (op, a, v) in &ops {
+        let mut i = 0;
+        while i < ops.len() {
+            let (op, a, v) = &ops[i];
             match op {
                 0 => b.push_literal(a),
                 1 => b.push_path_parameter(&a.as_str()),
-                _ => b.push_query_parameter(a, &v.as_str()),
+                _ => {
+                    // consecutive pairs with the same key may go through the collection variants
+                    let mut j = i;
+                    while j < ops.len() && ops[j].0 == 2 && ops[j].1 == *a {
+                        j += 1;
+                    }
+                    let vals: Vec<String> = ops[i..j].iter().map(|o| o.2.clone()).collect();
+                    match variant % 4 {
+                        1 => b.push_list_query_parameter(a, &vals),
+                        2 if vals.windows(2).all(|w| w[0] < w[1]) => {
+                            let set: std::collections::BTreeSet<String> = vals.iter().cloned().collect();
+                            b.push_set_query_parameter(a, &set)
+                        }
+                        3 if vals.len() == 1 => {
+                            b.push_optional_query_parameter::<String>(a, &None);
+                            b.push_optional_query_parameter(a, &Some(v.clone()))
+                        }
+                        _ => {
+                            for x in &vals {
+                                b.push_query_parameter(a, &x.as_str());
+                            }
+                        }
+                    }
+                    i = j;
+                    continue;
+                }
             }
+            i += 1;
         }
         b.build().to_string()
     });
@@ -194,7 +223,7 @@ fn server_decode(uri: &str, names: &[String], raw_params: &[String], shape: &Sha
 }
 
 fn judge_built(rep: &mut Report, sub: &str, seed: u64, ops: &[(u8, String, String)], sig_extra: &str) {
-    let b = build(ops);
+    let b = build(ops, fnv(sig_extra) ^ seed);
     let values: Vec<&String> = ops.iter().filter(|o| o.0 != 0).map(|o| if o.0 == 1 { &o.1 } else { &o.2 }).collect();
     let classes: Vec<String> = values.iter().map(|v| char_class(v)).collect();
     let raw_len: usize = ops.iter().map(|o| o.1.len() + o.2.len() + 2).sum();
@@ -245,8 +274,12 @@ fn random_ops(r: &mut Rng, val: &mut dyn FnMut(&mut Rng) -> String) -> Vec<(u8, 
             ops.push((0, format!("/{}", r.pick(LITS)), String::new()));
         }
     }
-    for _ in 0..r.below(5) {
-        ops.push((2, r.pick(KEYS).to_string(), val(r)));
+    for _ in 0..r.below(4) {
+        let key = r.pick(KEYS).to_string();
+        let run = if r.chance(1, 3) { 2 + r.below(3) } else { 1 };
+        for _ in 0..run {
+            ops.push((2, key.clone(), val(r)));
+        }
     }
     ops
 }
